@@ -64,6 +64,13 @@ type Attempt struct {
 	At                             time.Duration
 }
 
+// Misrouted reports whether the request was addressed to a region or server that does not
+// own its row. The client's own probe of a region whose range is shorter than the probe
+// key's padding (start key + 17 zero bytes) legitimately falls outside the range.
+func (a Attempt) Misrouted() bool {
+	return a.Outcome == ClsNSRE || (a.Outcome == ClsWrongRegion && a.Kind != "exists")
+}
+
 // OpResult is the outcome of one operation.
 type OpResult struct {
 	Class, Stack string // exception (Class == "" means success)
@@ -227,6 +234,9 @@ func (c *Cluster) Closed(addr string) { c.Open[addr]-- }
 
 const (
 	ClsNSRE         = "org.apache.hadoop.hbase.NotServingRegionException"
+	// what a regionserver answers when the named region is online there but the row lies
+	// outside its range (HRegion.checkRow); the client knows no such class: not retryable
+	ClsWrongRegion = "org.apache.hadoop.hbase.regionserver.WrongRegionException"
 	ClsRegionMoved  = "org.apache.hadoop.hbase.exceptions.RegionMovedException"
 	ClsRegionOpen   = "org.apache.hadoop.hbase.exceptions.RegionOpeningException"
 	ClsTooBusy      = "org.apache.hadoop.hbase.RegionTooBusyException"
@@ -286,9 +296,13 @@ func (c *Cluster) ExecOp(addr string, regionName []byte, kind string, row []byte
 		return OpResult{}
 	}
 	r := c.ByName(regionName)
-	if r == nil || r.Server != addr || !r.Contains(row) {
+	if r == nil || r.Server != addr {
 		c.attempt(addr, string(regionName), kind, ClsNSRE)
 		return OpResult{Class: ClsNSRE, Stack: fmt.Sprintf("region %s is not online on %s", regionName, addr)}
+	}
+	if !r.Contains(row) {
+		c.attempt(addr, string(regionName), kind, ClsWrongRegion)
+		return OpResult{Class: ClsWrongRegion, Stack: fmt.Sprintf("Requested row out of range for %s on HRegion %s", kind, regionName)}
 	}
 	if kind != "exists" {
 		if cls, ok := c.pop(c.KeyScript, string(row)); ok && cls != "" {
